@@ -118,9 +118,7 @@ def runKey (c : Json) : E Json := do
 
 /-! ### histories -/
 
-def recheckOf (fn : String) : Bool :=
-  let need := rechecked.filter (·.1 == fn)
-  !need.isEmpty && need.all fun p => (Gen.CacheKeys.hitPath.lookup fn).any (·.contains p.2)
+def recheckOf (fn : String) : Bool := Heimdall.CacheKey.recheckOf Gen.CacheKeys.hitPath fn
 
 def outName {α : Type} : Outcome α → String
   | .ok _ => "ok"
@@ -189,8 +187,14 @@ def runHistory (c : Json) : E Json := do
       match indexOf? views v with | some j => jnat j | none => Json.null))]),
     ("stats", Json.mkObj [("steps", jnat steps.length), ("hits", jnat hits), ("recheck", Json.bool (recheckOf fn))])])
 
+def runFacts : E Json :=
+  pure (Json.mkObj [("res", Json.mkObj [
+    ("key_users_domain_separated", Json.bool (usersSeparated Gen.CacheKeys.table)),
+    ("cache_sites", jnat Gen.CacheKeys.cacheSites.length)])])
+
 def run (c : Json) : E Json := do
   match ← str c "op" with
+  | "facts" => runFacts
   | "key" => runKey c
   | "run" => runHistory c
   | o => throw s!"unknown op {o}"
